@@ -176,6 +176,8 @@ def rule_r30_delegating(ctx, prog, only=None, rule="R30"):
     expression, reached through moves only.  `.reversed_axes()`, `.map(|_| ..)`, a popped map entry or an in-place edit
     between the call and the return all leave the kernel rules intact and are caught here."""
     n = 0
+    if hasattr(prog, "inlined_view"):
+        prog = prog.inlined_view()       # a routine whose body was moved into a private free function is read in place
     for trait, meth, callee in DELEGATING:
         if only is not None and (trait, meth) not in only:
             continue
